@@ -93,6 +93,44 @@ def check(ctx):
         ctx.ok("R18.1", "%s.%s may alias caller data and is only ever rebound" % (ocls, fld), ev.node, ev.fn)
     ctx.ok("R18.1", "no store event targets a caller-owned object (%d store events, %d runs)" %
            (n_events, len(traces)), construct="all entries", where="mabwiser/")
+    # R18.6: what a batch becomes must not depend on what the bandit happens to hold: data of the call are never cast
+    # to a dtype read from stored state (an int history would then truncate later float batches, a fixed-width
+    # string history would cut longer arm names, while the same data in one call or in another container is
+    # accepted unchanged)
+    ctx.rule("R18.6", "data of a call are not cast to a dtype taken from the bandit's stored arrays")
+    from .kill import dep_locations
+    n_cast = 0
+    for c, label, root, w in traces:
+        if label.split("+")[0] not in ("fit", "partial_fit", "predict", "predict_expectations"):
+            continue
+        eng = w.eng
+        F.focus(c, root)
+        for ev, anc in walk(root):
+            if ev.kind != "ext" or ev.a["name"] not in ("numpy.asarray", "numpy.array", "numpy.asanyarray", ".astype",
+                                                        "numpy.ascontiguousarray"):
+                continue
+            args = ev.a.get("args", [])
+            kw = ev.a.get("kwargs", {})
+            data = ev.a.get("recv") if ev.a["name"] == ".astype" else (args[0] if args else None)
+            dt = kw.get("dtype")
+            if dt is None:
+                pos = 0 if ev.a["name"] == ".astype" else 1
+                dt = args[pos] if len(args) > pos else None
+            if dt is None or data is None:
+                continue
+            n_cast += 1
+            from_state = [l for l in dep_locations(eng, dt.deps)
+                          if (eng.heap.objs.get(l[0]) or eng.persistent.get(l[0])) is not None and
+                          (eng.heap.objs.get(l[0]) or eng.persistent.get(l[0])).region == "bandit"]
+            from_call = any(isinstance(d, tuple) and len(d) == 2 and d[0] == "param" and
+                            d[1] in ("decisions", "rewards", "contexts") for d in data.deps)
+            if from_state and from_call:
+                ctx.violate("R18.6", "%s casts data of the call to a dtype read from stored state" % ev.fn.qualname,
+                            ev.node, ev.fn, "the dtype operand depends on %s [%s %s]: the result of training then "
+                            "depends on the element type of earlier batches / containers" %
+                            (sorted({str(l[1]) for l in from_state}), c.name, label))
+    ctx.ok("R18.6", "no cast of call data to a state-dependent dtype (%d casts with an explicit dtype examined)" %
+           n_cast, construct="all entries", where="mabwiser/")
     # R18.4: a converter / validator branch taken for one container type must be able to run for every policy
     ctx.rule("R18.5", "the Series reshape of __convert_context counts features, not stored rows")
     ctx.rule("R18.4", "no container-specific branch of the facade's converters and validators reads an attribute the "
